@@ -28,6 +28,12 @@ pub fn render_line(l: &J) -> Vec<u8> {
             "long" => format!("OK {GUID}0").into_bytes(),
             "nonhex" => format!("OK {}g", &GUID[..31]).into_bytes(),
             "missing" => b"OK".to_vec(),
+            // 32 characters that integer parsers accept as a hexadecimal number but that are not 32 hex digits
+            "plus" => format!("OK +{}", &GUID[..31]).into_bytes(),
+            "minus" => format!("OK -{}", &GUID[..31]).into_bytes(),
+            "zx" => format!("OK 0x{}", &GUID[..30]).into_bytes(),
+            "under" => format!("OK {}_{}", &GUID[..16], &GUID[..15]).into_bytes(),
+            "upper" => format!("OK {}{}", GUID[..16].to_uppercase(), &GUID[16..]).into_bytes(),
             // a textual UUID, not a D-Bus GUID
             "hyph" => b"OK 01234567-89ab-cdef-0123-456789abcdef".to_vec(),
             other => panic!("guid class {other}"),
@@ -402,7 +408,7 @@ pub fn cmd_rand(args: &[String]) {
         // mostly start with something OK-like so that the later stages are reached
         for i in 0..nl {
             let l = if i == 0 && rng.chance(2, 3) {
-                render_line(&json!({"k": "OK", "g": *rng.pick(&["valid", "valid", "valid", "other", "short", "long", "nonhex", "missing", "hyph"])}))
+                render_line(&json!({"k": "OK", "g": *rng.pick(&["valid", "valid", "valid", "other", "short", "long", "nonhex", "missing", "hyph", "plus", "minus", "zx", "under", "upper"])}))
             } else {
                 random_line(&mut rng)
             };
